@@ -81,6 +81,8 @@ type TCPServerTransport struct {
 	msgHandler           MessageHandler
 	connAcceptedListener ConnectionAcceptedListener
 	exit                 bool
+	// guards exit: written by the receive goroutine, read by whoever prunes the transport list
+	exitLock sync.Mutex
 }
 
 type ClientTransport interface {
@@ -562,7 +564,9 @@ func (t *TCPServerTransport) receiveMessage(conn net.Conn) {
 		t.msgHandler.HandleRawMessage(rawMsg)
 	}
 	if t.conn != nil {
+		t.exitLock.Lock()
 		t.exit = true
+		t.exitLock.Unlock()
 	}
 }
 
@@ -583,6 +587,8 @@ func (t *TCPServerTransport) GetPort() int {
 }
 
 func (u *TCPServerTransport) IsExit() bool {
+	u.exitLock.Lock()
+	defer u.exitLock.Unlock()
 	return u.conn != nil && u.exit
 }
 
